@@ -100,6 +100,7 @@ type exportObs struct {
 	KV      []kvDiff          `json:"kv,omitempty"`           // raw key/value differences original vs re-imported
 	KVLeft  int               `json:"kv_left"`                // differences remaining after the known ones were patched
 	TimeNs  int64             `json:"time_ns"`                // block time of the import
+	FinalKV []kvDiff          `json:"final_kv,omitempty"`     // raw differences at the end of the history (after the replay)
 	RawOrig map[string]json.RawMessage `json:"raw_orig,omitempty"`  // exported genesis of the modules the Coq model covers
 	RawRe   map[string]json.RawMessage `json:"raw_reimp,omitempty"` // ... after the round trip
 	Sizes   map[string]int    `json:"sizes"`   // module -> bytes of exported genesis
@@ -399,6 +400,9 @@ func run(t *testing.T, tc tcase) obs {
 	pend := []*pending{}
 	for i, b := range tc.Blocks {
 		o.Blocks = append(o.Blocks, c.runBlock(b))
+		if i == 0 {
+			c.lateSetup(tc)
+		}
 		if exportAt[i] {
 			p := c.export(i)
 			pend = append(pend, p)
@@ -407,9 +411,10 @@ func run(t *testing.T, tc tcase) obs {
 	}
 	fin := c.exportModules()
 	o.Final = digestOf(fin)
+	finKV := c.dumpStores()
 	for _, p := range pend {
 		if p.state != nil {
-			p.reimport(t, tc, fin)
+			p.reimport(t, tc, fin, finKV)
 		}
 	}
 	return o
@@ -473,7 +478,7 @@ func (c *chain) export(i int) *pending {
 
 // reimport: a fresh application initialised from the exported genesis -> per-module export compared byte for
 // byte with the original's -> the remaining history replayed -> final per-module export compared.
-func (p *pending) reimport(t *testing.T, tc tcase, fin map[string]json.RawMessage) {
+func (p *pending) reimport(t *testing.T, tc tcase, fin map[string]json.RawMessage, finKV map[string]map[string]string) {
 	eo := p.eo
 	var cb *chain
 	defer func() {
@@ -526,6 +531,8 @@ func (p *pending) reimport(t *testing.T, tc tcase, fin map[string]json.RawMessag
 	for _, blk := range tc.Blocks[eo.At+1:] {
 		eo.Tail = append(eo.Tail, cb.runBlock(blk))
 	}
+	eo.FinalKV = diffStores(finKV, cb.dumpStores())
+	markKnown(eo.FinalKV, tc.KVKnown)
 	refin := cb.exportModules()
 	eo.FinalRe = digestOf(refin)
 	eo.FinalDf = map[string][]string{}
@@ -629,6 +636,17 @@ func diffStores(a, b map[string]map[string]string) []kvDiff {
 		}
 	}
 	return out
+}
+
+func markKnown(ds []kvDiff, known [][]string) {
+	for i := range ds {
+		for _, k := range known {
+			if k[0] == ds[i].Store && regexp.MustCompile("^(?:"+k[1]+")$").MatchString(ds[i].Kind) && regexp.MustCompile("^(?:"+k[2]+")").MatchString(ds[i].Key) {
+				ds[i].Known = true
+				break
+			}
+		}
+	}
 }
 
 // patchKnown marks the differences that match a known pattern and overwrites the re-imported chain's entries
